@@ -2,7 +2,8 @@
 # tools/mutant_run.sh <patch.diff> <ID> [quick|thorough]
 # Runs ./check <ID> against a scratch copy of /repo with <patch.diff> applied, inside a scratch copy
 # of /verif (so that regenerated constants, evidence and replays never touch the real trees).
-# Everything is removed afterwards.  Exit code = the check's exit code.
+# VERIF_SRC=<dir> takes the framework from another copy (e.g. a settled worktree of /verif's HEAD while
+# people are editing /verif).  Everything is removed afterwards.  Exit code = the check's exit code.
 set -u
 PATCH=$(readlink -f "$1"); ID=$2; TIER=${3:-quick}
 S=/tmp/mut-$$
@@ -13,7 +14,8 @@ git -C /repo worktree add --detach "$S/repo" HEAD >/dev/null 2>&1 || exit 2
 git -C /repo diff HEAD | (cd "$S/repo" && git apply --allow-empty 2>/dev/null)
 (cd "$S/repo" && git apply "$PATCH") || { echo "patch does not apply"; exit 2; }
 # snapshot under the build lock so a half-finished lake build is never copied
-flock /verif/lean/.build.lock rsync -a --exclude .git --exclude .work --exclude replays /verif/ "$S/verif/"
+SRC=${VERIF_SRC:-/verif}
+flock "$SRC/lean/.build.lock" rsync -a --exclude .git --exclude .work --exclude replays "$SRC/" "$S/verif/"
 cd "$S/verif" || exit 2
 AFKAK_REPO="$S/repo" ./check "$ID" --tier "$TIER"
 rc=$?
